@@ -49,4 +49,58 @@ def proveSingle (o : GroupOps G) (H : List ByteArray → Int) (m : OvfMode)
     { proofs := [{ eq := eq, ne := nes, hasNonRevoc := false, nrTaus := .ok [] }],
       cHash := c, cList := cl.map o.enc }
 
+/-! ## several credentials, one challenge -/
+
+/-- what the prover holds for one sub-proof request (`ProofBuilder::add_sub_proof_request`) -/
+structure CredIn (G : Type) where
+  o : GroupOps G
+  pk : PubKey G
+  sig : Signature G
+  unrevealed : List String
+  revealed : List String
+  preds : List (Pred × NeTape)
+  vals : Values
+  m2Tilde : Int
+  tp : EqTape
+
+/-- first messages of every sub-proof, in order (the common-attribute seeds are shared) -/
+def initAll (m : OvfMode) (fourSq : Int → Outcome (List Int)) (common : List (String × Int)) :
+    List (CredIn G) → Outcome (List (EqInit G × List (NeInit G)))
+  | [] => .ok []
+  | ci :: rest =>
+    (initEqProof ci.o common ci.pk ci.sig ci.unrevealed ci.m2Tilde ci.tp).bind fun e =>
+    (initPreds ci.o m fourSq ci.pk e.mTilde ci.vals ci.preds).bind fun ns =>
+    (initAll m fourSq common rest).map fun r => (e, ns) :: r
+
+/-- the τ values of all sub-proofs as hashed: per sub-proof, in its own encoding -/
+def tauBytes : List (CredIn G) → List (EqInit G × List (NeInit G)) → List ByteArray
+  | ci :: cs, (e, ns) :: is => (proverTaus e ns).map ci.o.enc ++ tauBytes cs is
+  | _, _ => []
+
+/-- the commitments of all sub-proofs (`c_list`) -/
+def cBytes : List (CredIn G) → List (EqInit G × List (NeInit G)) → List ByteArray
+  | ci :: cs, (e, ns) :: is => (proverCList e ns).map ci.o.enc ++ cBytes cs is
+  | _, _ => []
+
+/-- responses of every sub-proof for the shared challenge -/
+def finalizeAll (c : Int) : List (CredIn G) → List (EqInit G × List (NeInit G)) →
+    Outcome (List (SubProof G))
+  | [], [] => .ok []
+  | ci :: cs, (e, ns) :: is =>
+    (finalizeEqProof e c ci.unrevealed ci.revealed ci.vals).bind fun eq =>
+    (finalizePreds c eq ns).bind fun nes =>
+    (finalizeAll c cs is).map fun r =>
+      { eq := eq, ne := nes, hasNonRevoc := false, nrTaus := .ok [] } :: r
+  | _, _ => .panic
+
+/-- a presentation over several credentials (no non-revocation parts): all first messages, ONE
+    Fiat–Shamir challenge over all τ values, all commitments and the nonce, all responses -/
+def proveMulti (H : List ByteArray → Int) (m : OvfMode) (fourSq : Int → Outcome (List Int))
+    (common : List (String × Int)) (creds : List (CredIn G)) (nonce : ByteArray) :
+    Outcome (Proof G) :=
+  (initAll m fourSq common creds).bind fun inits =>
+  let c := H (tauBytes creds inits ++ cBytes creds inits ++ [nonce])
+  (finalizeAll c creds inits).map fun sps =>
+    { proofs := sps, cHash := c, cList := cBytes creds inits }
+
 end CL.Pri
